@@ -844,6 +844,27 @@ class CExec:
         shape = contract.shapes[pname](P)
         return ArrayView(self, mem[ptr.block], ptr.block, ptr.off, shape)
 
+    def _callee_region(self, c, pname, ptr, P):
+        """multi-index (in the caller's logical shape of the block) of an access a callee taken by contract may perform through
+        parameter `pname`: anywhere in the block in general; if the callee's declared view has the shape of the trailing
+        dimensions of the block and starts at a multi-index whose trailing components are zero, the leading components are
+        those of the start and only the trailing ones are unknown (e.g. one matrix out of an array of matrices)."""
+        b = ptr.block
+        unk = [z3.Int("callee!idx!%d" % next(Block._ids)) for _ in b.shape]
+        try:
+            vshape = [Z(x) for x in c.shapes[pname](P)] if pname in c.shapes else None
+        except Exception:      # noqa: BLE001
+            vshape = None
+        if not vshape or len(vshape) >= len(b.shape):
+            return unk
+        k = len(b.shape) - len(vshape)
+        if not all(b.shape[k + t] is not None and simp(vshape[t] - Z(b.shape[k + t])).eq(z3.IntVal(0)) for t in range(len(vshape))):
+            return unk
+        comps = self.split_index(b, ptr.off)
+        if comps is None or not all(simp(comps[k + t]).eq(z3.IntVal(0)) for t in range(len(vshape))):
+            return unk
+        return list(comps[:k]) + unk[k:]
+
     def call_contract(self, st, name, args, node):
         c = self.contracts[name]
         cf, fn = self.find_function(name)
@@ -877,14 +898,12 @@ class CExec:
                 b = ptrs[m].block
                 st.mem[b] = b.fresh("@" + name)
                 if self.write_log is not None:
-                    # inside a parallel region a callee taken by contract writes "somewhere" in this block
-                    unk = [z3.Int("callee!idx!%d" % next(Block._ids)) for _ in b.shape]
-                    self.write_log.append(("w", b, unk, list(st.pc), node))
+                    # inside a parallel region a callee taken by contract writes somewhere inside its VIEW of this block
+                    self.write_log.append(("w", b, self._callee_region(c, m, ptrs[m], P), list(st.pc), node))
         if self.write_log is not None:
             for pn, pv in ptrs.items():
                 if pv.block is not None and pn not in c.modifies:
-                    unk = [z3.Int("callee!idx!%d" % next(Block._ids)) for _ in pv.block.shape]
-                    self.write_log.append(("r", pv.block, unk, list(st.pc), node))
+                    self.write_log.append(("r", pv.block, self._callee_region(c, pn, pv, P), list(st.pc), node))
         rt = parse_type(fn["type"]["qualType"].split("(")[0].strip())
         ret = None
         if rt == "real":
